@@ -95,6 +95,16 @@ func c03symbol(c *core.Ctx, r *core.Reporter) {
 		}
 	}
 	r.Decide(callsReadably, rule, "render|slip.(Printer).createTree calls Symbol.Readably", c.Pos(treeFn.Pos()), "the pretty printer's tree builder renders its Symbol arm with Symbol.Readably")
+	// (numberlike) a name the reader would take for a number or a time must be written between bars: the printer
+	// asks the reader's own token classifier, so Symbol.Readably reaches reader.resolveToken. (prin1 '|123|)
+	// wrote 123, read back as a fixnum (cc448df).
+	reachesClassifier := false
+	for f := range staticReach(readablyFn) {
+		if f.Name() == "resolveToken" && f.Signature.Recv() != nil {
+			reachesClassifier = true
+		}
+	}
+	r.Decide(reachesClassifier, rule, "numberlike|slip.(Symbol).Readably reaches reader.resolveToken", c.Pos(readablyFn.Pos()), "the decision to write a name bare consults the reader's token classifier: "+boolStr(reachesClassifier))
 	// (fold)
 	lower := func(v ssa.Value) bool {
 		for i := 0; i < 4; i++ {
